@@ -32,7 +32,7 @@ for pid in ids:
 na = [{"property_id": pid, "reason": registry.NOT_APPLICABLE[pid]} for pid in ids if pid not in registry.CLAIMED]
 man = {
     "version": 1,
-    "setup_cmd": "python3-vt -m pyvc.selfcheck",
+    "setup_cmd": "python3-vt -m pyvc.selfcheck && python3-vt -m pyvc.enginetest",
     "hooks": {
         "guard": "IOPT_VERIF",
         "enable": "none needed: contracts are sidecar files under /verif/contracts, the verifier re-parses /repo's "
